@@ -255,6 +255,7 @@ func runC06(c *eng.Ctx) {
 
 	c.Rule("GUARD", "pkg/queue.queue.persistMetaOfMessage{cached index page = page of the sequence}", func() { cachedIndexPageRule(c) })
 	c.Rule("ORDER", "pkg/queue.NewConsumerGroup{meta probed before the page is created}", func() { existenceProbedBeforeCreate(c, "pkg/queue.NewConsumerGroup", "") })
+	c.Rule("SYMMETRY", "pkg/queue.queue{page = s / N, slot = s % N for one s}", func() { pageSlotOfOneSequence(c) })
 
 	// ---- group meta page layout -----------------------------------------------------------------
 	c.Rule("LAYOUT", "pkg/queue.consumer-group-meta", func() {
